@@ -1123,7 +1123,7 @@ theorem mchange_gone {m m' : Market} {env : Env} {s : Nat} {msg : ExecMsg} {lid 
 
 /-- the marketplace record after one transaction: unchanged, or the result of an accepted
     handler run on the pre-state record and environment -/
-theorem stepF_mkt_cases (fail : Nat → Bool) (w : World) (op : Op) :
+theorem stepF_mkt_casesF (fail : Nat → Bool) (w : World) (op : Op) :
     (stepF fail w op).1.mkt = w.mkt ∨
     ∃ c f msg out, op.asExec = some (c, f, msg) ∧ (stepF fail w op).2.ok = true ∧
       (stepF fail w op).1.nowNs = w.nowNs ∧
@@ -1164,7 +1164,7 @@ theorem step_idsInv
     (hpres : ∀ m env s f msg m' out, IdsInv m → execute m env s f msg = .ok (m', out) → IdsInv m')
     {w : World} (op : Op) (hI : IdsInv w.mkt) : IdsInv (step w op).1.mkt := by
   unfold step
-  rcases stepF_mkt_cases noFault w op with h | ⟨c, f, msg, out, _, _, _, hx⟩
+  rcases stepF_mkt_casesF noFault w op with h | ⟨c, f, msg, out, _, _, _, hx⟩
   · rw [h]; exact hI
   · exact hpres _ _ _ _ _ _ _ hI hx
 
